@@ -23,7 +23,7 @@ SgT(g) == <<g.key, g.kind, g.ch, g.pub, g.host>>
 St == << now, {OpT(o) : o \in ops}, {SgT(g) : g \in sigs}, <<cli.st, cli.host, cli.chS, cli.spk>>, ncli, cn,
          {<<e.host, e.spk, e.chS>> : e \in cache} >>
 \* the op record with its blobs and signatures as tuples
-OpJ(r) == [x \in DOMAIN r |-> IF x = "o" THEN OpT(r[x]) ELSE IF x \in {"sig", "signed"} THEN SgT(r[x]) ELSE r[x]]
+OpJ(r) == [x \in DOMAIN r |-> IF x \in {"o", "b"} THEN OpT(r[x]) ELSE IF x \in {"sig", "signed"} THEN SgT(r[x]) ELSE r[x]]
 EmitEdge == PrintT(<<"VFEDGE", ToJson([s |-> St, op |-> OpJ(op'), t |-> St'])>>)
 Conf == [maxt |-> MaxT, chalttl |-> ChalTTL, tokttl |-> TokTTL, maxmint |-> MaxMint, maxtok |-> MaxTok,
          maxcli |-> MaxCli, s2samekey |-> S2SameKey, verifiers |-> Verifiers, explicit |-> Explicit,
